@@ -996,4 +996,14 @@ C17_FirstVSC == [][
       /\ (st.provChan # "") => st.provChan = r[i].dstChan
   ]_vars
 
+
+(* ======================================================================= *)
+(* C18  determinism: independent replicas fed the same history agree        *)
+(* ======================================================================= *)
+
+\* per block: chain / height / application hash / digest of the FinalizeBlock response (tx results, events incl.
+\* packets and acknowledgements, validator updates) as computed by each replica
+C18_Agree == (E.a = "Obs") => (E.args.r1 = E.args.r2 /\ E.args.r2 = E.args.r3)
+C18_SameLength == (E.a = "ObsLen") => (E.args.r1 = E.args.r2 /\ E.args.r2 = E.args.r3)
+
 =============================================================================
